@@ -107,6 +107,14 @@ def workload(rng, n):
             ver = (rng.choice("ABCD"), rng.randrange(2))
             kb = gens[ver][1]
             items.append(("tr31.unwrap", (gens[ver][0], kb[:-1] + ("0" if kb[-1] != "0" else "1")), "tr31", UNWRAP_TOK))
+        elif k == 17 and rng.random() < 0.5:
+            # deterministic serialisers of a Header object the caller keeps (the object is an argument: it must stay as it is)
+            hv = rng.choice("ABCD")
+            hobj = make_header(rng, hv, rand_blocks(rng, rng.randrange(0, 3)))
+            if rng.random() < 0.5:
+                items.append(("tr31.Header.__str__", (hobj,), "tr31", None))
+            else:
+                items.append(("tr31.Header.dump", (hobj, rng.choice([0, 16, 24, 40])), "tr31", None))
         elif k == 17:
             items.append(("des.adjust_key_parity", (bytearray(dk),), "plain", None))
         elif k == 18:
@@ -144,7 +152,7 @@ def generate(rng, tier, seed):
     for it in items:
         fn, args, stream, tok = it
         c = Case("workload:" + fn.split(".")[-1], {})
-        op = "tr31.unwrap" if fn == "tr31.unwrap" else None
+        op = {"tr31.unwrap": "tr31.unwrap", "tr31.Header.__str__": "header.str", "tr31.Header.dump": "header.dump"}.get(fn)
         r = c.call(fn, *args, op=op, stream=stream, tok=tok)
         r2 = call_impl(fn, args, stream=stream)
         o1 = ("ok", enc(r.value) if tok is None else tok(r.value)) if r.ok else ("err", r.err)
@@ -153,6 +161,20 @@ def generate(rng, tier, seed):
             c.fail("the same call returned a different result when repeated")
         expected.append(plain_outcome(it))
         yield c
+    # (i') wrap is randomised, but it takes a Header object the caller keeps: the object must be exactly as before afterwards - fields,
+    # blocks and what it serialises to (Case.call compares a snapshot that includes `str(header)`)
+    for ver in "ABCD":
+        for _ in range(2):
+            hobj = make_header(rng, ver, rand_blocks(rng, rng.randrange(0, 3)))
+            c = Case("wrap-keeps-header-argument", {"ver": ver})
+            before = (enc(hobj), str(hobj))
+            c.call("tr31.wrap", rb(rng, VERS[ver][1][-1]), hobj, rb(rng, rng.choice([8, 16, 24])), rng.choice([None, 0, 40]), op="tr31.wrap", stream="tr31", with_entropy=True)
+            kbo = tr31.KeyBlock(rb(rng, VERS[ver][1][-1]), hobj)
+            kbo.wrap(rb(rng, 16))
+            hobj.dump(24)
+            if (enc(hobj), str(hobj)) != before:
+                c.fail("wrap / dump left the caller's Header object serialising differently than before")
+            yield c
     # (ii) single-preemption schedules
     pairs = []
     kb_items = [it for it in items if it[0] == "tr31.unwrap"]
